@@ -72,8 +72,10 @@ func init() {
 		sw, done := newSweeper(t, "c19")
 		defer done()
 		var mu sync.Mutex
-		// (with a string literal terminal holding bytes that are not UTF-8: the markdown path must not re-encode the file)
-		for _, seed := range append(allSeeds(tier), gram.Seed{Name: "strlit-not-utf8", Text: "a : 'a' ;\nb : '\U0001F600' | '\uff0b' | '\ue000' | '\ufffd' ;\nS : a \"x\xc3\" | \"\xff\" S | b \"\uff0b\U0001F600\" ;\n"}) {
+		// (with a string literal terminal holding bytes that are not UTF-8: the markdown path must not re-encode the file;
+		// the character literals next to it are the corners of the code space - astral, fullwidth, private use, U+FFFD,
+		// and the last code points U+10FFFF, U+10FFFE, U+FFFF - written raw)
+		for _, seed := range append(allSeeds(tier), gram.Seed{Name: "strlit-not-utf8", Text: "a : 'a' ;\nb : '\U0001F600' | '\uff0b' | '\ue000' | '\ufffd' | '\U0010FFFF' | '\U0010FFFE' | '\uffff' ;\nS : a \"x\xc3\" | \"\xff\" S | b \"\uff0b\U0001F600\" ;\n"}) {
 			toks, err := gram.Lexemes(seed.Text)
 			if err != nil {
 				ev.Inconsistent("seed %s: %v", seed.Name, err)
